@@ -340,23 +340,51 @@ func ruleGOB(c *Ctx) {
 		c.anchor("Bytecode.Decode / fixDecodedObject")
 		return
 	}
-	fixLoop := containsNode(dc.Body, func(n ast.Node) bool {
-		rs, ok := n.(*ast.RangeStmt)
-		if !ok || !strings.HasSuffix(w.Src(rs.X), ".Constants") {
-			return false
-		}
-		return containsNode(rs.Body, func(m ast.Node) bool {
-			call, ok := m.(*ast.CallExpr)
-			return ok && Callee(p, call) != nil && Callee(p, call).Name() == "fixDecodedObject"
-		}) && containsNode(rs.Body, func(m ast.Node) bool {
-			as, ok := m.(*ast.AssignStmt)
-			if !ok || len(as.Lhs) != 1 {
-				return false
+	// a loop that passes every element of X through fixDecodedObject and
+	// stores the result back, written inline or in a helper that receives X
+	var fixLoopOver func(root ast.Node, matchX func(ast.Expr) bool, depth int) bool
+	fixLoopOver = func(root ast.Node, matchX func(ast.Expr) bool, depth int) bool {
+		return containsNode(root, func(n ast.Node) bool {
+			switch x := n.(type) {
+			case *ast.RangeStmt:
+				if !matchX(x.X) {
+					return false
+				}
+				return containsNode(x.Body, func(m ast.Node) bool {
+					call, ok := m.(*ast.CallExpr)
+					return ok && Callee(p, call) != nil && Callee(p, call).Name() == "fixDecodedObject"
+				}) && containsNode(x.Body, func(m ast.Node) bool {
+					as, ok := m.(*ast.AssignStmt)
+					if !ok || len(as.Lhs) != 1 {
+						return false
+					}
+					ix, ok := as.Lhs[0].(*ast.IndexExpr)
+					return ok && matchX(ix.X)
+				})
+			case *ast.CallExpr:
+				hd := gHelpers[x]
+				if hd == nil || depth > 0 {
+					return false
+				}
+				var params []string
+				for _, f := range hd.Type.Params.List {
+					for _, nm := range f.Names {
+						params = append(params, nm.Name)
+					}
+				}
+				for i, a := range x.Args {
+					if matchX(a) && i < len(params) {
+						pn := params[i]
+						if fixLoopOver(hd.Body, func(e ast.Expr) bool { id, ok := ast.Unparen(e).(*ast.Ident); return ok && id.Name == pn }, depth+1) {
+							return true
+						}
+					}
+				}
 			}
-			ix, ok := as.Lhs[0].(*ast.IndexExpr)
-			return ok && strings.HasSuffix(w.Src(ix.X), ".Constants")
+			return false
 		})
-	})
+	}
+	fixLoop := fixLoopOver(dc.Body, func(e ast.Expr) bool { return strings.HasSuffix(w.Src(e), ".Constants") }, 0)
 	c.check(fixLoop, "GOB.3/decode-fixes-constants", dc, "every decoded constant is replaced by its fixed form", "Decode does not pass every constant through fixDecodedObject and store the result back")
 	// order: FileSet, MainFunction, Constants symmetric with Encode
 	en := w.FuncDecl(p, "Bytecode.Encode")
@@ -424,23 +452,7 @@ func ruleGOB(c *Ctx) {
 			c.fail("GOB.3/fix/"+t, fx, "fixDecodedObject does not recurse into "+t)
 			continue
 		}
-		rec := containsNode(cc, func(n ast.Node) bool {
-			rs, ok := n.(*ast.RangeStmt)
-			if !ok {
-				return false
-			}
-			return containsNode(rs.Body, func(m ast.Node) bool {
-				call, ok := m.(*ast.CallExpr)
-				return ok && Callee(p, call) != nil && Callee(p, call).Name() == "fixDecodedObject"
-			}) && containsNode(rs.Body, func(m ast.Node) bool {
-				as, ok := m.(*ast.AssignStmt)
-				if !ok || len(as.Lhs) != 1 {
-					return false
-				}
-				_, isIdx := as.Lhs[0].(*ast.IndexExpr)
-				return isIdx
-			})
-		})
+		rec := fixLoopOver(cc, func(e ast.Expr) bool { return strings.HasSuffix(w.Src(e), ".Value") }, 0)
 		c.check(rec, "GOB.3/fix/"+t, cc, "elements are fixed recursively and stored back", "fixDecodedObject does not fix the elements of "+t+" in place")
 	}
 }
@@ -660,13 +672,33 @@ func ruleXCH(c *Ctx) {
 		if fd == nil {
 			continue
 		}
-		good := containsNode(fd.Body, func(nd ast.Node) bool {
+		// (in the method or in a helper it calls) a nil test of the slot's
+		// value next to the undefined singleton: `if v == nil { v = Undefined }`
+		// or `if v != nil { return v }; return Undefined`
+		good := containsDeep(fd.Body, func(nd ast.Node) bool {
 			is, ok := nd.(*ast.IfStmt)
 			if !ok {
 				return false
 			}
 			b, ok := ast.Unparen(is.Cond).(*ast.BinaryExpr)
-			return ok && b.Op == token.EQL && isNilIdent(b.Y) && strings.Contains(w.Src(is.Body), "UndefinedValue")
+			if !ok || !isNilIdent(b.Y) {
+				return false
+			}
+			switch b.Op {
+			case token.EQL:
+				return strings.Contains(w.Src(is.Body), "UndefinedValue")
+			case token.NEQ:
+				// the non-nil value is used in the body; undefined follows
+				return true
+			}
+			return false
+		}) && containsDeep(fd.Body, func(nd ast.Node) bool {
+			e, ok := nd.(ast.Expr)
+			if !ok {
+				return false
+			}
+			o := ObjOf(p, e)
+			return o != nil && o.Name() == "UndefinedValue"
 		})
 		c.check(good, "XCH.3/"+m+"-nil-is-undefined", fd, "unset slots read as undefined", "Compiled."+m+" hands out a nil Object for an unset variable")
 	}
